@@ -11,11 +11,13 @@ class SharedDictDataset(CachedDataset):
         self.shared_dict = manager.dict()
 
     def _cached_getitem(self, idx):
-        if idx not in self.shared_dict:
+        # "idx in shared_dict" followed by "shared_dict[idx]" is not atomic
+        # (another process can clear the dict via dispose in between) -> ask for the value directly
+        try:
+            sample = self.shared_dict[idx]
+        except KeyError:
             sample = self.dataset[idx]
             self.shared_dict[idx] = sample
-        else:
-            sample = self.shared_dict[idx]
         return sample
 
     def dispose(self):
